@@ -204,16 +204,19 @@ OVERRIDES = {
          "outside it validate deviates from the statement -- known finding KF12, reported by the bounded part. Trusted: z3, the pyvc "
          "translator, the data-model assumption that module sentinels (NoValue) are never container elements, write_data[anydatum]."),
    technique="contract-based deductive verification (AST->VC, z3) of every validator incl. exceptional postconditions; bounded differential check against the same executable predicate"),
- "C08": dict(cat="exploration", design="0.3, 0.10, 7/C08",
-   text=("Bounded stand-in (labelled bounded, never counted as proved): reader schemas derived from writer schemas by single evolution "
-         "steps at every position (promotions, incompatible changes, unions, field add/drop/rename/alias/reorder, record renames, enum "
-         "symbol changes, fixed size changes, named-kind changes keeping the name, reader-only fields with JSON defaults of every kind) "
-         "against an executable resolution oracle written from the specification. Deductive pieces only, not enough to carry the "
-         "property: maybe_promote (the value conversions of the promotions), match_types on primitive names (equal or promotable), "
-         "read_enum with a reader enum (unknown symbol -> reader default, else SchemaResolutionError). Level therefore exploration."),
+ "C08": dict(cat="other", design="0.3, 0.10, 0.13, 7/C08",
+   text=("Deductive: (a) alignment under schema resolution -- for every reader (read_null ... read_record, read_union, read_data), "
+         "EVERY reader schema and EVERY option set, a call that returns has consumed exactly the encoding of one value of the WRITER's "
+         "schema (any block partition of arrays/maps, writer-only fields skipped, whichever reader branch is matched); it may raise "
+         "instead; match_schemas / match_types have no effect on the decoder; (b) maybe_promote performs exactly the value conversions "
+         "of the promotions; match_types on primitive names is 'equal or promotable'; read_enum with a reader enum returns the symbol, "
+         "the reader's default for an unknown symbol, or raises SchemaResolutionError when there is none. All obligations discharged. "
+         "Not deductive: the resolved VALUES (field matching by name / alias, reader-only defaults, union branch choice, recursion) -- "
+         "bounded stand-in: single evolution steps at every position against an executable resolution oracle; hence 'other'."),
    note=("Known findings KF07 (reader union: first matching branch, promotions included) and KF12 (reader-only defaults handed out as raw "
-         "JSON) are excluded by predicate; one defect fixed (named types of different kinds matched by name). Oracle: spec/resolve.py."),
-   technique="bounded differential checking against an executable resolution oracle; contract-based deductive verification of three resolution helpers"),
+         "JSON) are excluded by predicate; three defects fixed (inline vs by-name named types, named kinds matched by name alone, "
+         "named-type reporting crash). Trusted: z3, pyvc translator, stream model; reader schemas are arbitrary values (no assumption)."),
+   technique="contract-based deductive verification of stream alignment under resolution (every reader, exceptional exits allowed) and of the promotion / enum-default helpers; bounded differential checking against an executable resolution oracle"),
  "C11": dict(cat="exploration", design="0.3, 0.10, 7/C11",
    text=("Bounded stand-in (labelled bounded, never counted as proved): parse_schema against an independent parser written from the "
          "specification on valid schemas; every listed kind of ill-forming mutation at every position. Deductive piece only: schema_name "
